@@ -95,6 +95,11 @@ type jLsEv struct {
 	At      int64      `json:"at"`
 	Panels  []jPanelLS `json:"panels"`
 	Msg     string     `json:"msg,omitempty"`
+	// Save with a crash: "" = power loss (everything unsynced is dropped), "kill" = the process dies in front of
+	// the operation and everything written before it survives (the operating system writes its cache back),
+	// "kill+pl" = the same, the store is reopened (Tan repairs a log whose last record is incomplete) and the
+	// machine loses power as soon as the reopen has returned
+	Kind string `json:"kind,omitempty"`
 }
 
 type crashInjector struct {
@@ -105,6 +110,8 @@ type crashInjector struct {
 	noSyncErr bool  // regular Tan fsyncs in goroutines of its own and stops the process on failure (allowed, not observable here)
 	mem       *vfs.MemFS
 	fired     int32
+	kill      bool   // at `at`: everything written so far becomes durable first (process death, not power loss)
+	flush     func() // the operating system writing back its cache
 }
 
 var errInjected = errors.New("injected I/O error")
@@ -131,6 +138,9 @@ func (c *crashInjector) MaybeError(op vfs.Op) error {
 	n := atomic.AddInt64(&c.n, 1)
 	if c.at != 0 && n == c.at {
 		atomic.StoreInt32(&c.fired, 1)
+		if c.kill && c.flush != nil {
+			c.flush()
+		}
 		c.mem.SetIgnoreSyncs(true)
 	}
 	if c.errAt != 0 && n >= c.errAt && op == vfs.OpWrite {
@@ -148,6 +158,8 @@ func (c *crashInjector) MaybeError(op vfs.Op) error {
 
 type lsSim struct {
 	rng       *rand.Rand
+	rng2      *rand.Rand // choices added later (kind of crash): drawn from a source of their own
+	mid       bool       // Tan: entries of several KB, a record straddles a 32 KB block of the log every few saves
 	out       *bufio.Writer
 	tid       int
 	step      int
@@ -376,6 +388,9 @@ func (s *lsSim) mkEnts(n *lsNode, first uint64, cnt int, term uint64) []pb.Entry
 	for i := range es {
 		s.nextVal++
 		sz := 8 + s.rng.Intn(40)
+		if s.mid {
+			sz = 4000 + s.rng2.Intn(24000)
+		}
 		if s.big {
 			sz = (2 + s.rng.Intn(3)) << 20
 		}
@@ -509,9 +524,20 @@ func (s *lsSim) save(crashAt int64) {
 		uds = append(uds, ud)
 		jus = append(jus, ju)
 	}
+	kind := ""
 	if crashAt != 0 {
 		atomic.StoreInt64(&s.inj.n, 0)
 		s.inj.at = crashAt
+		if s.rng2 != nil && s.rng2.Intn(3) == 0 && os.Getenv("VERIF_LS_NOKILL") == "" {
+			kind = "kill"
+			s.inj.kill = true
+			if s.mid {
+				// a save of a few large entries is a handful of operations: between the write of a full block
+				// and the write of the rest of the record
+				crashAt = int64(1 + s.rng2.Intn(6))
+				s.inj.at = crashAt
+			}
+		}
 	}
 	res := "ok"
 	func() {
@@ -538,8 +564,12 @@ func (s *lsSim) save(crashAt int64) {
 	fired := atomic.LoadInt32(&s.inj.fired) == 1
 	s.inj.at = 0
 	if !fired {
+		if kind == "kill" {
+			s.flushAll("/ls")
+		}
 		s.mem.SetIgnoreSyncs(true)
 	}
+	s.inj.kill = false
 	func() {
 		defer func() { recover() }()
 		s.db.Close()
@@ -548,11 +578,29 @@ func (s *lsSim) save(crashAt int64) {
 	s.mem.SetIgnoreSyncs(false)
 	atomic.StoreInt32(&s.inj.fired, 0)
 	s.open()
+	if kind == "kill" && s.rng2.Intn(2) == 0 {
+		// the reopen may have repaired files (Tan copies a log whose last record is incomplete): whatever it
+		// did has to be durable when it returns, the machine loses power now
+		kind = "kill+pl"
+		s.mem.SetIgnoreSyncs(true)
+		func() {
+			defer func() { recover() }()
+			s.db.Close()
+		}()
+		s.mem.ResetToSyncedState()
+		s.mem.SetIgnoreSyncs(false)
+		s.open()
+	}
 	all := []int{}
 	for k := range s.nodes {
 		all = append(all, k)
 	}
-	s.emit(jLsEv{Op: "Save", Ups: jus, Res: res, Crashed: true, At: crashAt})
+	s.emit(jLsEv{Op: "Save", Ups: jus, Res: res, Crashed: true, At: crashAt, Kind: kind})
+	if kind != "" {
+		s.counts["crash:"+kind]++
+	} else {
+		s.counts["crash:powerloss"]++
+	}
 	ps := s.panels(all)
 	s.emit(jLsEv{Op: "Recovered", Panels: ps})
 	// like a restarting replica, the driver continues from what the store recovered
@@ -1062,8 +1110,13 @@ func TestVerifLssim(t *testing.T) {
 		s.big = (s.flavour == "tan" || s.flavour == "tanmux") && tid%16 >= 12 && os.Getenv("VERIF_BIG") == "1"
 		s.mem = vfs.NewStrictMem()
 		s.inj = &crashInjector{mem: s.mem}
+		s.inj.flush = func() { s.flushAll("/ls") }
 		s.fs = vfs.Wrap(s.mem, s.inj)
 		s.crashMode = mode == "crash"
+		if s.crashMode {
+			s.rng2 = rand.New(rand.NewSource(seed*32452843 + int64(tid)))
+			s.mid = (s.flavour == "tan" || s.flavour == "tanmux") && tid%16 >= 14 && !s.big
+		}
 		other := uint64(3)
 		if s.flavour == "tanmux" || s.flavour == "tan" {
 			other = 17
